@@ -31,6 +31,34 @@ CHECKS = {
         "Trusted: harness JSON rendering of terms; the DeBruijn->Name conversion used before printing (itself monitored by C11).",
         "DESIGN.md §3 C15",
     ),
+    "C03": (
+        "exploration",
+        "runtime monitoring: differential against an independent reference CEK machine (Python, from the Plutus Core specification, self-tested on upstream goldens) over exhaustively enumerated small terms, random machine terms and the conformance corpus",
+        "Every closed term with <= 4 (quick) / 5 (thorough) nodes over a reduced alphabet with six 2-builtin palettes, seeded random machine terms (closures captured under lam/delay/constr/case, case on constants, partial builtins in results, open variables) and the upstream conformance programs are evaluated by the real machine under V1/V2/V3 x protocol 8-11 and by the reference evaluator; results are compared as closed de Bruijn trees after full read-back substitution (the comparison the repository's conformance test cannot make).",
+        "Trusted: oracles/uplc_ref (cek.py, builtins.py, term.py), which must reproduce the upstream .expected goldens at the start of every run (else exit 2). Reference fuel exhaustion is inconclusive.",
+        "DESIGN.md §3 C03",
+    ),
+    "C04": (
+        "exploration",
+        "runtime monitoring: per-builtin reference functions (Python ints/bytes, own Keccak/Ed25519/secp256k1/BLS12-381) as oracle over boundary-biased argument tuples under semantics variants A-E; determinism probe in a second process",
+        "For each of the 91 builtins, seeded boundary-biased saturated applications (plus wrong-typed, non-constant, unsaturated, over-applied, mis-forced ones) are evaluated by the real machine, so that costing-time checks are on the path, under one configuration per semantics variant, and compared with the reference function's value or failure. Every case is evaluated a second time in a fresh process in reverse order and must give the identical outcome and cost.",
+        "Trusted: oracles/uplc_ref/builtins.py + bls.py (calibrated on ~1340 upstream goldens). hashToGroup has no independent implementation (inconclusive). Out-of-Int64 arguments of Int-typed parameters follow the upstream goldens.",
+        "DESIGN.md §3 C04",
+    ),
+    "C05": (
+        "exploration",
+        "runtime monitoring: upstream budget goldens + accounting identity from reference step counts and hook-H3 builtin cost events + functional-dependence/monotonicity of builtin costs on an independent size measure + metamorphic budget/slippage relations",
+        "(1) all upstream V3 budget goldens under protocol 11 with the default model and the conformance vector; (2) cost = start-up + reference step count x unit + sum of charged builtin costs, same charged calls, per-kind debug counters = reference counts x unit cost, on random machine terms and builtin applications under V1-V3 x pv 8-11; (3) equal independent size tuples => equal builtin cost, monotone shapes monotone; (4) cost independent of 9 batching intervals, budget C succeeds with remainder 0, C-1 in either dimension fails with OutOfExError, C+d leaves d, random budgets succeed iff C <= B.",
+        "Trusted: upstream goldens, oracles/uplc_ref step counting and exmem.py. Limit: for builtin x variant pairs without a golden, the mapping from the flat parameter vector to coefficients is not independently decided; V2 budget goldens need the Vasil-era vector which the repository does not ship.",
+        "DESIGN.md §3 C05",
+    ),
+    "C10": (
+        "exploration",
+        "runtime monitoring / sanitizer build: overflow-checking + debug-assertion build with catch_unwind and subprocess shards (abort attribution), plain-release twin build in the thorough tier, hostile term and constant-folding workloads, termination on logical budgets",
+        "Hostile UPLC terms (open indices 0/depth+1/2^31/2^63, every builtin x every constant kind incl. 10^4-bit integers, huge case tags, 5000 branches, 20000 constr fields, divergent and 3000-deep terms, terms decoded from mutated flat bytes) are evaluated under six finite budgets x 3 languages x 4 protocol versions in a build where arithmetic overflow panics; every harvested module and a table of constant expressions at each folding boundary (in a function, a test and a module constant) are compiled under two tracings. A panic, a dead shard, or a hang under a finite budget is a violation.",
+        "Trusted: rustc's overflow checks / debug assertions, the OS. The thorough tier repeats the evaluation workload on a build without overflow checks; the build profile is part of the violation key.",
+        "DESIGN.md §3 C10",
+    ),
     "C07": (
         "exploration",
         "runtime monitoring: brute-force matcher over enumerated scrutinee values as reference model; exhaustive enumeration of small clause lists + random deeper ones",
